@@ -12,6 +12,8 @@
 #include "vx_explore.h"
 
 #include <errno.h>
+#include <execinfo.h>
+#include <link.h>
 #include <fcntl.h>
 #include <signal.h>
 #include <stdarg.h>
@@ -95,6 +97,7 @@ struct shared {
     int nsamples;
     struct sample samples[VX_MAXSAMPLES];
     uint64_t nstates, noutcomes;
+    uint64_t counters[VX_NCOUNTERS];
     int states_saturated;
     struct wslot w[VX_MAXW];
     struct item q[VX_QCAP];
@@ -265,6 +268,13 @@ void vx_transition(void)
 void vx_transitions(uint64_t n)
 {
     g_ntrans_local += n;
+}
+
+void vx_counter(int idx, uint64_t n)
+{
+    if (idx >= 0 && idx < VX_NCOUNTERS && S && !g_replay) {
+        __atomic_add_fetch(&S->counters[idx], n, __ATOMIC_RELAXED);
+    }
 }
 
 void vx_outcome(uint64_t v)
@@ -685,6 +695,52 @@ static void worker_dfs(struct wslot *ws)
     __atomic_sub_fetch(&S->outstanding, 1, __ATOMIC_RELAXED);
 }
 
+/* --opt fptrap=1: run everything with the SSE exception mask cimba_run_experiment() gives its worker
+ * threads (invalid operation and division by zero trap), so that a NaN or an infinity produced from finite
+ * valid input inside the library ends the execution with SIGFPE, as it would inside an experiment */
+static uintptr_t g_exe_base;
+
+static int find_base(struct dl_phdr_info *info, size_t size, void *data)
+{
+    (void)size;
+    (void)data;
+    g_exe_base = (uintptr_t)info->dlpi_addr; /* first entry = the executable */
+    return 1;
+}
+
+static void fpe_handler(int sig, siginfo_t *si, void *uc)
+{
+    (void)sig;
+    (void)uc;
+    void *pcs[24];
+    const int n = backtrace(pcs, 24);
+    char line[600];
+    int l = snprintf(line, sizeof line, "VX-SIGFPE code=%d frames:", si->si_code);
+    for (int i = 0; i < n && l < (int)sizeof line - 24; i++) {
+        l += snprintf(line + l, sizeof line - (size_t)l, " %lx", (unsigned long)((uintptr_t)pcs[i] - g_exe_base));
+    }
+    l += snprintf(line + l, sizeof line - (size_t)l, "\n");
+    if (write(2, line, (size_t)l) < 0) {
+        _exit(3);
+    }
+    /* SA_RESETHAND: returning re-executes the instruction and the default action ends the process */
+}
+
+static void fp_mode(void)
+{
+#if defined(__x86_64__)
+    if (vx_opt_int("fptrap", 0)) {
+        dl_iterate_phdr(find_base, NULL);
+        struct sigaction sa;
+        memset(&sa, 0, sizeof sa);
+        sa.sa_sigaction = fpe_handler;
+        sa.sa_flags = SA_SIGINFO | SA_RESETHAND;
+        sigaction(SIGFPE, &sa, NULL);
+        __builtin_ia32_ldmxcsr(0x1d00);
+    }
+#endif
+}
+
 static void worker_main(int w)
 {
     g_w = w;
@@ -695,6 +751,7 @@ static void worker_main(int w)
         dup2(fd, 2);
         close(fd);
     }
+    fp_mode();
     if (H->worker_init) {
         H->worker_init();
     }
@@ -796,6 +853,42 @@ static void classify(const char *path, int status, bool hang, char *out, size_t 
         }
         l -= (size_t)(base - ls);
         snprintf(what, sizeof what, "ubsan %.*s", (int)(l > 250 ? 250 : l), base);
+    }
+    else if ((p = strstr(buf, "VX-SIGFPE code=")) != NULL) {
+        /* symbolise the frames (offsets into this same executable) and name the first library function */
+        const int code = atoi(p + strlen("VX-SIGFPE code="));
+        const char *fr = strstr(p, "frames:");
+        char cmd[900];
+        int l = snprintf(cmd, sizeof cmd, "addr2line -f -e /proc/%d/exe", (int)getpid());
+        if (fr) {
+            fr += 7;
+            size_t fl = strcspn(fr, "\n");
+            for (size_t i = 0; i < fl && l < (int)sizeof cmd - 2; i++) {
+                if (fr[i] == ' ') {
+                    l += snprintf(cmd + l, sizeof cmd - (size_t)l, " 0x");
+                }
+                else {
+                    cmd[l++] = fr[i];
+                    cmd[l] = 0;
+                }
+            }
+        }
+        snprintf(cmd + l, sizeof cmd - (size_t)l, " 2>/dev/null");
+        char func[100] = "?";
+        FILE *pp = popen(cmd, "r");
+        if (pp) {
+            char ln[300];
+            while (fgets(ln, sizeof ln, pp)) {
+                if (!strncmp(ln, "cm", 2) || !strncmp(ln, "cimba", 5)) {
+                    ln[strcspn(ln, "\n")] = 0;
+                    snprintf(func, sizeof func, "%.90s", ln);
+                    break;
+                }
+            }
+            pclose(pp);
+        }
+        snprintf(what, sizeof what, "floating-point trap (%s) in %s",
+                 code == FPE_FLTDIV ? "division by zero" : code == FPE_FLTINV ? "invalid operation" : "other", func);
     }
     else if ((p = strstr(buf, "VX-FATAL")) != NULL) {
         size_t l = strcspn(p, "\n");
@@ -959,6 +1052,7 @@ int vx_main(int argc, char **argv, const struct vx_harness *h)
         g_replay = true;
         setvbuf(stdout, NULL, _IOLBF, 0); /* keep the trace if the replayed run dies */
         S->bound = 1 << 14;
+        fp_mode();
         if (h->worker_init) {
             h->worker_init();
         }
@@ -1133,14 +1227,16 @@ int vx_main(int argc, char **argv, const struct vx_harness *h)
                 "\"exhaustive\":%s,\"deadline_hit\":%s,\"cap_hit\":%s,"
                 "\"executions\":%llu,\"executions_total\":%llu,\"transitions\":%llu,"
                 "\"states\":%llu,\"states_saturated\":%s,\"outcomes\":%llu,\"cuts\":%llu,"
-                "\"max_points\":%llu,\"wall_s\":%.3f,\"per_bound\":[%s],",
+                "\"max_points\":%llu,\"wall_s\":%.3f,\"per_bound\":[%s],\"counters\":[%llu,%llu,%llu,%llu],",
             o_workers, o_bmin, o_bmax, completed,
             (completed == o_bmax) ? "true" : "false", deadline_hit ? "true" : "false",
             cap_hit ? "true" : "false",
             (unsigned long long)exec_last, (unsigned long long)exec_total,
             (unsigned long long)S->transitions, (unsigned long long)S->nstates,
             S->states_saturated ? "true" : "false", (unsigned long long)S->noutcomes,
-            (unsigned long long)S->cuts, (unsigned long long)S->maxpts, wall, perbound);
+            (unsigned long long)S->cuts, (unsigned long long)S->maxpts, wall, perbound,
+            (unsigned long long)S->counters[0], (unsigned long long)S->counters[1],
+            (unsigned long long)S->counters[2], (unsigned long long)S->counters[3]);
     fprintf(fp, "\"violations_total\":%llu,\"violations\":[", (unsigned long long)S->viol_total);
     for (int k = 0; k < S->nviol; k++) {
         struct viol *v = &S->viol[k];
